@@ -8,8 +8,8 @@ import numpy as np
 import verde as vd
 from hypothesis import strategies as st
 
-from vlib import gen
-from vlib.oracles import EPS, interval_counts, line_models, match_line
+from vlib import build, gen
+from vlib.oracles import EPS, exact, interval_counts, line_models, match_line
 from vlib.runner import Sub, Violation
 
 PROPERTY = "C07"
@@ -136,6 +136,7 @@ def grid_cases(draw):
                                        st.lists(st.one_of(gen.finite(-1e4, 1e4), st.just(0.0)), min_size=1, max_size=3)))
     else:
         case["extra"] = None
+    case["extra_seq"] = draw(st.sampled_from(build.SEQS))
     return case
 
 
@@ -156,7 +157,7 @@ def check_grid(case, ctx):
             sp_n = sp_e = sp
         size_n = size_e = None
     if case["extra"] is not None:
-        kwargs["extra_coords"] = case["extra"]
+        kwargs["extra_coords"] = build.seq(case["extra"], case.get("extra_seq", "list"))
     first = vd.grid_coordinates(region, **kwargs)
     keep = [np.array(c, copy=True) for c in first]
     for c in first:
@@ -210,9 +211,9 @@ def check_grid(case, ctx):
             spn, spe = vd.coordinates.shape_to_spacing(region, tuple(case["shape"]), pixel_register=case["pixel"])
             div_n = size_n if case["pixel"] else size_n - 1
             div_e = size_e if case["pixel"] else size_e - 1
-            ctx.check(abs(Fraction(float(spn)) - (Fraction(region[3]) - Fraction(region[2])) / div_n)
+            ctx.check(abs(exact(spn, "shape_to_spacing result") - (Fraction(region[3]) - Fraction(region[2])) / div_n)
                       <= Fraction(4 * EPS * abs(float(spn))), "shape_to_spacing north %r wrong", spn)
-            ctx.check(abs(Fraction(float(spe)) - (Fraction(region[1]) - Fraction(region[0])) / div_e)
+            ctx.check(abs(exact(spe, "shape_to_spacing result") - (Fraction(region[1]) - Fraction(region[0])) / div_e)
                       <= Fraction(4 * EPS * abs(float(spe))), "shape_to_spacing east %r wrong", spe)
             back = vd.grid_coordinates(region, spacing=(spn, spe), pixel_register=case["pixel"], meshgrid=False)
             ctx.check((back[1].size, back[0].size) == tuple(case["shape"]),
@@ -244,14 +245,14 @@ def profile_cases(draw):
         p2 = [p1[0] + draw(st.sampled_from([1e-9, -3e-10, 2.5e-11])), p1[1] + draw(st.sampled_from([1e-9, 0.0, -7e-10]))]
     else:
         p2 = [p1[0] + draw(gen.finite(-1e6, 1e6)), p1[1] + draw(gen.finite(-1e6, 1e6))]
-    return dict(p1=p1, p2=p2, size=draw(st.integers(1, 120)), kind=kind,
+    return dict(p1=p1, p2=p2, size=draw(st.integers(1, 120)), kind=kind, extra_seq=draw(st.sampled_from(build.SEQS)), point_seq=draw(st.sampled_from(build.SEQS)),
                 extra=draw(st.one_of(st.none(), gen.finite(-100, 100), st.just(0.0), st.lists(st.one_of(gen.finite(-100, 100), st.just(0.0)), min_size=1, max_size=2))))
 
 
 def check_profile(case, ctx):
     p1, p2, size = case["p1"], case["p2"], case["size"]
-    kw = {} if case["extra"] is None else dict(extra_coords=case["extra"])
-    coords, dist = vd.profile_coordinates(tuple(p1), tuple(p2), size, **kw)
+    kw = {} if case["extra"] is None else dict(extra_coords=build.seq(case["extra"], case.get("extra_seq", "list")))
+    coords, dist = vd.profile_coordinates(build.seq(p1, case.get("point_seq", "tuple")), build.seq(p2, case.get("point_seq", "tuple")), size, **kw)
     n_extra = 0 if case["extra"] is None else (len(case["extra"]) if isinstance(case["extra"], list) else 1)
     ctx.check(len(coords) == 2 + n_extra, "expected %d coordinate arrays, got %d", 2 + n_extra, len(coords))
     e, n, dist = np.asarray(coords[0]), np.asarray(coords[1]), np.asarray(dist)
@@ -262,8 +263,8 @@ def check_profile(case, ctx):
     tol = Fraction(16 * EPS * scale)
     for k in range(size):
         t = Fraction(k, size - 1) if size > 1 else Fraction(0)
-        ctx.check(abs(Fraction(float(e[k])) - (Fraction(p1[0]) + t * dx)) <= tol, "easting of profile point %d off the segment", k)
-        ctx.check(abs(Fraction(float(n[k])) - (Fraction(p1[1]) + t * dy)) <= tol, "northing of profile point %d off the segment", k)
+        ctx.check(abs(exact(e[k], "profile easting") - (Fraction(p1[0]) + t * dx)) <= tol, "easting of profile point %d off the segment", k)
+        ctx.check(abs(exact(n[k], "profile northing") - (Fraction(p1[1]) + t * dy)) <= tol, "northing of profile point %d off the segment", k)
         ctx.check(abs(float(dist[k]) - float(t) * sep) <= 16 * EPS * max(sep, 1e-300), "distance of profile point %d is not t*separation", k)
     ctx.check(dist[0] == 0, "first distance must be 0")
     for k in range(n_extra):
